@@ -900,6 +900,11 @@ func (p *probe) seqLevel(cfg bcfg, unknown []int, ranks []string) {
 					alias = true
 				}
 				w := 1 + r.Intn(5)
+				if k%5 == 3 {
+					// a deep sequencing run: millions of reads for one taxon next to a single read of
+					// another one - the single read counts for the LCA all the same
+					w = []int{1, 1, 2500000, 40000000, 1 + r.Intn(3)}[r.Intn(5)]
+				}
 				merged[strconv.Itoa(id)] = w
 				total += w
 				nodes = append(nodes, x)
